@@ -299,7 +299,8 @@ Forged(b) ==
       tids == {0} \cup {x.tid : x \in pend[b]}
   IN {[from |-> "X", kind |-> k, src |-> s, dst |-> NatMap[l], tid |-> t, uc |-> u, rolea |-> ra,
        user |-> us, key |-> ky, prio |-> HostPrio, tbc |-> 1, copy |-> 0, nom |-> 0] :
-        k \in {"req", "succ", "err", "ind"}, s \in srcs, t \in tids, u \in BOOLEAN, ra \in {role[peer]},
+        k \in {"req", "succ", "err", "ind", "other"},    \* "other": any class with a non-Binding method
+        s \in srcs, t \in tids, u \in BOOLEAN, ra \in {role[peer]},
         us \in {<<gen[b], rgen[b]>>, <<gen[b], 0>>, <<0, rgen[b]>>},
         ky \in {<<b, gen[b]>>, <<peer, rgen[b]>>, <<peer, 0>>, <<"X", 0>>}}
 Inject(m) == inj < MaxInject /\ inj' = inj + 1 /\ net' = net (+) One(m) /\ out' = EmptyBag
